@@ -116,6 +116,20 @@ func c08Units(ctx *core.Ctx) []core.Unit {
 						if x != ea || y != eb {
 							vio(r, "c08.operand_intact", "banderwagon.Element.Sub", in, "operands unchanged", "modified")
 						}
+						// operand variables with a history: they held another value (normalised by the API, computed
+						// projectively, decoded) before the operand was assigned to them with Set
+						for k := 0; k < 3; k++ {
+							hx, hy := withHistory(ea, k), withHistory(eb, (k+1)%3)
+							zh := dirtyEl()
+							zh.Add(&hx, &hy)
+							chk(fmt.Sprintf("banderwagon.Element.Add (operand variables with history %d)", k), &zh, sum)
+							zh = dirtyEl()
+							zh.Sub(&hx, &hy)
+							chk(fmt.Sprintf("banderwagon.Element.Sub (operand variables with history %d)", k), &zh, diff)
+							if !hx.Equal(&ea) || !hy.Equal(&eb) || hx.Bytes() != ea.Bytes() {
+								vio(r, "c08.law", "banderwagon.Element.Set / Equal / Bytes", in, "a variable assigned with Set is Equal to (and encoded like) the source", fmt.Sprintf("history %d: not equal", k))
+							}
+						}
 						// receiver = op1
 						x, y = ea, eb
 						x.Add(&x, &y)
@@ -314,4 +328,25 @@ func c08Units(ctx *core.Ctx) []core.Unit {
 		}})
 	}
 	return us
+}
+
+// withHistory returns a variable that holds e (assigned with Set) after having held something else that the
+// API itself produced: 0 = a value normalised by Normalize, 1 = a projective result of Double, 2 = a decoded
+// element. Representation bookkeeping that an implementation attaches to a variable must follow the value.
+func withHistory(e banderwagon.Element, kind int) banderwagon.Element {
+	var q banderwagon.Element
+	switch kind {
+	case 0:
+		q = reprOf(banderwagon.Generator, reprProj)
+		q.Normalize()
+	case 1:
+		q = banderwagon.Generator
+		q.Double(&q)
+		q.Add(&q, &banderwagon.Generator)
+	default:
+		b := banderwagon.Generator.Bytes()
+		q.SetBytes(b[:])
+	}
+	q.Set(&e)
+	return q
 }
